@@ -130,6 +130,15 @@ func (idx *RoaringMetadataIndex) Add(node MetadataNode) error {
 	docID := node.ID()
 	metadata := node.Metadata()
 
+	// Validate all values up front so a rejected document leaves the index untouched
+	for key, value := range metadata {
+		switch value.(type) {
+		case int, int64, float64, string, bool:
+		default:
+			return fmt.Errorf("unsupported type for key %s: %T", key, value)
+		}
+	}
+
 	idx.allDocs.Add(docID)
 
 	for key, value := range metadata {
